@@ -118,6 +118,26 @@ ODD_SCORE_TEXTS = ["", " ", "abc", "7,5", "7.5.1", "--1", "0x10", "1e1", "1E1", 
                    " 7.5", "7.5 ", "7.5\n", "７.５", "7_5", "1_0.0", "7.4999999999999999", "7.500000000000001", "7.49", "7.51", "9.99", "0.05", "None", "7.5/", "1e400", "4.0", "4", ".5", "5."]
 
 
+# score texts defined relative to the object's base score b (exact decimal arithmetic, then printed):
+# numbers that differ from b by less than the printing resolution - the region where a tolerant or
+# rounding comparison differs from "the number equals the computed base score"
+REL_SCORE_TEXTS = [("rel", d) for d in ("0.04", "-0.04", "0.05", "-0.05", "0.049", "-0.049", "0.0499999", "-0.0499999", "0.051", "-0.051", "0.01", "-0.01", "0.001", "-0.001",
+                                        "0.0000001", "-0.0000001", "0.000000000001", "-0.000000000001", "0.1", "-0.1", "1", "-1", "0.0", "0.00")]
+
+
+def resolve_score_text(entry, base):
+    """text of an alphabet entry for an object whose base score is `base`"""
+    if isinstance(entry, str):
+        return entry
+    from decimal import Decimal
+
+    d = entry[1]
+    b = Decimal(repr(float(base)))
+    if d in ("0.0", "0.00"):
+        return str(b) + d[2:]  # the same number printed with more decimals: 7.5 -> 7.50 / 7.500
+    return str(b + Decimal(d))
+
+
 def install_shared_v4_score(sess, mod):
     """v4 only: every CVSS4 object built in this session gets the SAME arbitrary score variable.
     Sound for round-trip lemmas in which all objects have the same metric map (the score is a
@@ -175,7 +195,17 @@ def task_c12(version, fixed, label, part="shape+roundtrip"):
     def mk_replay(model, what):
         p = {"kind": "c12", "version": version, "vector": sess.vector_string(version, model), "what": what}
         if "scoretext" in model:
-            p["score_text"] = (SCORE_TEXTS + ODD_SCORE_TEXTS)[model["scoretext"]]
+            e = (SCORE_TEXTS + ODD_SCORE_TEXTS + REL_SCORE_TEXTS)[model["scoretext"]]
+            if isinstance(e, str):
+                p["score_text"] = e
+            else:
+                p["score_text_rel"] = e[1]  # resolved by the replay against the vector's real base score
+        # acceptance lemma / v4: the base score is an abstract shared value; the replay looks for a
+        # real vector with that base score (the model's vector has whatever score it really has)
+        for k in ("shared.base_score", "score4"):
+            if k in model and model[k] is not None:
+                p["abstract_base"] = float(model[k])
+                p["alphabet"] = SCORE_TEXTS + ODD_SCORE_TEXTS
         return p
 
     obj, vec, mod = O.make_object(sess, chk, version, vars_, label)
@@ -213,9 +243,9 @@ def task_c12(version, fixed, label, part="shape+roundtrip"):
 def c12_acceptance(sess, chk, version, label, obj, cls, X, clean, base, mk_replay):
     # (3) acceptance: arbitrary score text in front of a valid vector
     m, vc = sess.m, sess.vc
-    texts = SCORE_TEXTS + ODD_SCORE_TEXTS
+    texts = SCORE_TEXTS + ODD_SCORE_TEXTS + REL_SCORE_TEXTS
     tv = m.new_var("scoretext", list(range(len(texts))))
-    t = vc.from_var(tv, lambda i: texts[i])
+    t = sess.lift(lambda i, b: resolve_score_text(texts[i], b), [vc.from_var(tv), base])
     inp = StructStr("/", [(m.TRUE, t)] + [c for c in clean.chunks])
     res, raised = sess.call_method(cls, "from_rh_vector", [inp])
     n = "CVSS%d" % version
@@ -239,7 +269,7 @@ def c12_acceptance(sess, chk, version, label, obj, cls, X, clean, base, mk_repla
         except ValueError:
             return False
 
-    num = m.or_all([m.atom(tv, i) for i, s in enumerate(texts) if parses(s)])
+    num = vc.cond_of(sess.lift(parses, [t])).l
     same = vc.cond_of(sess.lift(lambda s, f: parses(s) and float(s) == f, [t, base])).l
     O.must_not(sess, chk, m.XOR(r_mal.l, m.NOT(num)), "%s: RH-malformed error exactly when the score part is not a number" % label, mk_replay)
     O.must_not(sess, chk, m.XOR(r_mis.l, m.AND(num, m.NOT(same))), "%s: score-mismatch error exactly when the number differs from the base score" % label, mk_replay)
@@ -296,7 +326,7 @@ def main_c12():
     for r in C.run_named_tasks("harness.accessors", tasks):
         chk.absorb_dict(r)
     chk.input_model = ("M-ASSIGN with real scoring (v2 27, v3 48 sessions; v4 with one shared arbitrary score), real from_rh_vector executed on the structured string; the score part ranges over "
-                       "the 101 canonical score texts plus %d odd texts, float() runs for real at the leaves" % len(ODD_SCORE_TEXTS))
+                       "the 101 canonical score texts plus %d odd texts plus %d texts defined relative to the object's base score (base +- 0.04, 0.05, 0.049, ... 1e-12, the same number with more decimals); float() runs for real at the leaves" % (len(ODD_SCORE_TEXTS), len(REL_SCORE_TEXTS)))
     chk.bounds = ["score-part alphabet is finite (listed above); float()'s own parsing is CPython's", "vector part: valid vectors (M-ASSIGN); invalid vector parts raise the ordinary vector errors by C04 (the constructor is called unchanged)"]
     chk.stubs = ["v4, and the acceptance lemma of every version: compute_*_score := shared arbitrary one-decimal scores (all objects in such a session have the same metric map; shape and round trip of v2/v3 use real scoring)"]
     chk.assumptions = ["str(float) of a one-decimal float prints one decimal (checked at the leaves for all 101 values)"]
